@@ -62,6 +62,16 @@ macro_rules! do_next_by {
     $ctx.subject.clone().next_by(move |v| f.apply(&v));
   }};
 }
+macro_rules! cb_peek {
+  (plain, $ctx:expr) => {};
+  (behavior, $ctx:expr) => {
+    if $ctx.peek_in_cb.load(std::sync::atomic::Ordering::SeqCst) {
+      let v = $ctx.subject.peek();
+      $ctx.log.lock().unwrap().push(Obs::Peeked(v));
+    }
+  };
+}
+
 macro_rules! do_peek {
   (plain, $ctx:expr) => { panic!("peek on a plain subject") };
   (behavior, $ctx:expr) => {{
@@ -85,6 +95,8 @@ macro_rules! subject_runner {
         pub subs: Mutex<Vec<Option<Unsub>>>,
         /// Some(i): subscriber i's next callback must subscribe a new subscriber
         pub inside: Mutex<Option<usize>>,
+        /// every next callback reads the subject back (peek) while the delivery is in progress
+        pub peek_in_cb: std::sync::atomic::AtomicBool,
       }
 
       pub struct P {
@@ -103,6 +115,7 @@ macro_rules! subject_runner {
       impl<'r, 's> Observer<ity!($iref, 'r), ety!($eref, 's)> for P {
         fn next(&mut self, value: ity!($iref, 'r)) {
           self.ctx.log.lock().unwrap().push(Obs::Deliver(self.id, Ev::Next(getv!($iref, value))));
+          cb_peek!($kind, self.ctx);
           let pending = {
             let mut g = self.ctx.inside.lock().unwrap();
             if *g == Some(self.id) { g.take() } else { None }
@@ -132,6 +145,7 @@ macro_rules! subject_runner {
           subject: mk_subject!($kind, init),
           subs: Mutex::new(vec![]),
           inside: Mutex::new(None),
+          peek_in_cb: std::sync::atomic::AtomicBool::new(ops.first().map_or(false, |o| matches!(o, Sexp::Atom(a) if a == "peekcb"))),
         });
         for op in ops {
           let a = op.args();
@@ -168,6 +182,7 @@ macro_rules! subject_runner {
             "retain" => do_retain!($kind, ctx),
             "next_by" => do_next_by!($kind, ctx, a),
             "peek" => do_peek!($kind, ctx),
+            "peekcb" => {}
             "unsub_subject" => ctx.subject.clone().unsubscribe(),
             "len" => {
               let n = ctx.subject.len();
